@@ -12,7 +12,8 @@ EXPLANATION = (
     "inputs are considered (take before filter_map), one output per cookie/placeholder, each "
     "keyset.encode_cookie(request cookie) and only if not longer than the field it replaces."
 )
-NOT_DECIDED = ["that decoding a fresh cookie yields the same keys (cryptographic round trip, see C26)", "AES-SIV security"]
+NOT_DECIDED = ["that decoding a fresh cookie yields the same keys as a value-level round trip (AES-SIV); the structural agreements between encode_cookie, decode_cookie "
+               "and rotate (C26-R1..R3: key-id mapping, layout, retained keys) are evaluated here as well", "AES-SIV security"]
 
 SRV = 'ntp_proto::server::Server'
 PKT = 'ntp_proto::packet::NtpPacket'
@@ -124,5 +125,14 @@ def r3(ctx):
     ctx.check('MAX_COOKIES', P.const_val('ntp_proto::cookiestash::MAX_COOKIES') == '8', 'MAX_COOKIES changed', sample=P.const_val('ntp_proto::cookiestash::MAX_COOKIES'))
 
 
-RULES = [r1, r2, r3]
-FLOORS = {'C19-R1': 6, 'C19-R2': 8, 'C19-R3': 20}
+def r4(ctx):
+    # "fresh cookies that decode under the server's current keys": the structural agreements between encode_cookie, decode_cookie and rotate
+    # (key-id mapping with the same wrapping arithmetic, field layout, retained key window) are C26's rules R1-R3; they are evaluated here too
+    from rules import C26
+    C26.r1(ctx)
+    C26.r2(ctx)
+    C26.r3(ctx)
+
+
+RULES = [r1, r2, r3, r4]
+FLOORS = {'C19-R1': 6, 'C19-R2': 8, 'C19-R3': 20, 'C26-R1': 4}
